@@ -509,9 +509,12 @@ class MirDump:
                     name = self._hdr_name(ln)
                     self.fn_index.setdefault(name, []).append((i, j))
                 else:
-                    m = re.match(r'^(?:const|static(?: mut)?) (.*?): (.*) = \{$', ln)
+                    m = re.match(r'^(?:const|static(?: mut)?) (.*) = \{$', ln)
                     if m:
-                        self.const_index.setdefault(m.group(1), []).append((i, j, m.group(2)))
+                        body = m.group(1)
+                        k = find_top(body, ': ')
+                        if k > 0:
+                            self.const_index.setdefault(body[:k], []).append((i, j, body[k + 2:]))
                 i = j
             i += 1
 
